@@ -169,6 +169,13 @@ fn latest(name: &str) -> Option<semver::Version> {
     PUBLISHED.iter().find(|(n, _)| *n == name).and_then(|(_, rs)| rs.iter().map(|(v, _)| semver::Version::parse(v).unwrap()).max())
 }
 
+fn error_span(e: &Error) -> Option<SourceSpan> {
+    match e {
+        Error::PackageDoesNotExist { span, .. } | Error::PackageVersionDoesNotExist { span, .. } | Error::PackageNoReleases { span, .. } => Some(*span),
+        _ => None,
+    }
+}
+
 fn error_class(e: &Error) -> (String, String) {
     match e {
         Error::PackageDoesNotExist { name, .. } => ("PackageDoesNotExist".into(), name.clone()),
@@ -265,7 +272,22 @@ fn check(world: &World, c: &Case) -> Outcome {
             if !expected_errors.contains(&got) {
                 return o.with_verdict(Verdict::Fail { sig: format!("C20/wrong-error:{}{shape}", got.0), msg: format!("resolve reports {got:?}; the failing keys are {expected_errors:?}") });
             }
-            o.comparisons(1)
+            // the error is attributed to a key that asked for what is missing
+            if let Some(span) = error_span(&e) {
+                let asking: Vec<SourceSpan> = keys
+                    .iter()
+                    .filter(|(k, _)| match got.0.as_str() {
+                        "PackageVersionDoesNotExist" => format!("{}@{}", k.name, k.version.map(|v| v.to_string()).unwrap_or_default()) == got.1,
+                        "PackageNoReleases" => k.name == got.1 && k.version.is_none(),
+                        _ => k.name == got.1,
+                    })
+                    .map(|(_, s)| *s)
+                    .collect();
+                if !asking.contains(&span) {
+                    return o.with_verdict(Verdict::Fail { sig: format!("C20/error-attributed-to-another-key:{}{shape}", got.0), msg: format!("{got:?} is reported at span {span:?}; the keys that ask for it are at {asking:?}") });
+                }
+            }
+            o.comparisons(2)
         }
         Ok(map) => {
             o = o.label("resolve-ok");
